@@ -9,6 +9,11 @@ no TCP ports are needed.
 script: dict stage -> action, or callable(ctx, stage) -> action.
   stages : 'connect' 'banner' 'ehlo' 'helo' 'starttls' 'auth' 'mail' 'rcpt<i>' 'data'
            'eod<i>' (LMTP: i-th accepted recipient; SMTP: 'eod0') 'rset' 'quit' 'noop' 'other'
+           'idle' (only with idle_stage=True): consulted once after every finished end-of-data and
+           every RSET, before the server reads the next command -- the connection idles.  ('ok',) =
+           keep waiting; ('reply', '421'[, text]) = push an unsolicited reply tagged '[c<n> idle]'
+           and close (server-initiated timeout); ('close',) = drop the idle connection; delays and
+           (for callable scripts) blocking on a harness gate are allowed.
   actions: ('ok',)                         the normal positive reply for that stage
            ('reply', '450'[, 'text'])      a well-formed reply with that code
            ('raw', b'...')                 arbitrary bytes (malformed replies)
@@ -47,13 +52,15 @@ class Conn(object):
         self.anomalies = []       # protocol-state anomalies seen by the independent automaton
         self.greeting = None      # 'EHLO' / 'HELO' / 'LHLO'
         self.quit = False
+        self.idle_push = None     # code of an unsolicited reply pushed while the connection idled
 
 
 class Downstream(object):
 
     def __init__(self, script=None, lmtp=False, pipelining=True, extensions=(b'8BITMIME',),
-                 tls_context=None, auth=False, stall_event=None):
+                 tls_context=None, auth=False, stall_event=None, idle_stage=False):
         self.script = script or {}
+        self.idle_stage = idle_stage
         self.lmtp = lmtp
         self.pipelining = pipelining
         self.extensions = list(extensions)
@@ -139,6 +146,27 @@ class Downstream(object):
     def positive(a, klass='2'):
         return a[0] == 'ok' or (a[0] == 'reply' and a[1][:1] == klass)
 
+    def _idle(self, f, c, ctx):
+        """The connection idles between transactions: scripted server-initiated timeout."""
+        ictx = dict(ctx, marker=None, idle=True)
+        a = self.action(ictx, 'idle')
+        while a[0] == 'delay':
+            gevent.sleep(a[1])
+            a = a[2]
+        if a[0] == 'ok':
+            return
+        if a[0] == 'reply':
+            text = a[2] if len(a) > 2 else '4.4.2 idle timeout, closing'
+            f.write(('%s %s [c%d idle]\r\n' % (a[1], text, c.n)).encode())
+            f.flush()
+            c.idle_push = a[1]
+        elif a[0] == 'raw':
+            f.write(a[1])
+            f.flush()
+        elif a[0] != 'close':
+            raise ValueError('unknown idle action %r' % (a,))
+        raise EOFError()
+
     def serve(self, sock, c):
         self.live += 1
         self.max_live = max(self.max_live, self.live)
@@ -148,7 +176,11 @@ class Downstream(object):
         greeted = False
         try:
             self._send(f, c, ctx, 'banner', b'220 downstream ready [c%d]\r\n' % c.n)
+            idle_pending = False
             while True:
+                if idle_pending and self.idle_stage:
+                    idle_pending = False
+                    self._idle(f, c, ctx)
                 line = f.readline()
                 if not line:
                     c.closed_by = 'peer'
@@ -276,11 +308,13 @@ class Downstream(object):
                         for r in txn['rcpts_accepted']:
                             txn['eod'][r] = self.positive(a)
                     txn['done'] = True
+                    idle_pending = True
                 elif verb == b'RSET':
                     if txn is not None:
                         txn['reset'] = True
                         txn['done'] = True
                     self._send(f, c, ctx, 'rset', b'250 2.0.0 reset\r\n')
+                    idle_pending = True
                 elif verb == b'NOOP':
                     self._send(f, c, ctx, 'noop', b'250 2.0.0 ok\r\n')
                 elif verb == b'QUIT':
